@@ -36,6 +36,15 @@
     iterations, hence every aggregate delay and the clock stay within `span`; the clock values
     handed to the two frameworks lie in a window of that width, so the potential argument of
     C01 excludes their only fault; C04 keeps every returned machine id inside the slot vectors.
+  * `C19_monitor_accepts_model` (+ `C19_bounds_model`, `C19_det_model`, `C19_proj_model`,
+    `C19_monitor_panics_exact`, `C19_monitor_silent`, `C19_monitor_accepts_model_total`): **the
+    monitor accepts the model's own observations** — on every list of runs whose observations are
+    the model's, where runs with the same base (seed included) share the oracle, `C19.monitor`
+    reports exactly its "panic" entries (no "bounds", "det" or "proj" failure); an observation
+    is a panic exactly when the model run ends in a fault (or, without an iteration cap, in the
+    model's own loop budget); under the guard of `C19_total` the monitor returns the empty list.
+    `C19_monitor_det_needs_shared_oracle` and `C19_monitor_sim_flag_needed` show the two
+    hypotheses on the run list are needed.
 -/
 import MbVerif.Proofs.SimRecord
 import MbVerif.Proofs.SimCap
@@ -44,6 +53,7 @@ import MbVerif.Proofs.SimBugFree
 import MbVerif.Proofs.SimTotal
 import MbVerif.Proofs.SimNoFault
 import MbVerif.Proofs.SimRaw
+import MbVerif.Proofs.SimMonitorAccept
 import MbVerif.Spec.C19
 
 namespace Mb.C19
@@ -449,4 +459,201 @@ example : (match exState with
                   ((loop exOracle exArgs 100 st 0 0).stream.filter exArgs.keep).length,
                   (loop exOracle exArgs.unfiltered 100 st 0 0).stream.length)
     | none => (0, 0, 0)) = (7, 3, 7) := by decide
+
+/-! ### the monitor accepts the model's own observations -/
+
+/-- **Bounds part**: a trace the model returns respects the configured bounds, in the
+    monitor's vocabulary. -/
+theorem C19_bounds_model (budget : Nat) (c : CaseIn) (r : RunIn) (orc : σ) (tr : List SimEvent)
+    (h : (modelObs ρ budget c r orc).res = .ok tr) : boundsOK (r.effArgs c.delay) tr = true := by
+  rw [modelObs_res] at h
+  obtain ⟨_, htr⟩ := res_ok_inv h
+  subst htr
+  unfold boundsOK
+  rw [List.length_map]
+  simp only [Bool.and_eq_true, Bool.or_eq_true, beq_iff_eq, decide_eq_true_eq]
+  constructor
+  · by_cases h0 : (r.effArgs c.delay).maxTraceLength = 0
+    · exact Or.inl h0
+    · exact Or.inr (C19_length_bounded ρ budget c.mc c.ms _ _ orc (by omega))
+  · by_cases h0 : (r.effArgs c.delay).maxSimIterations = 0
+    · exact Or.inl h0
+    · have h1 := (C19_iterations_bounded ρ budget c.mc c.ms (parseTraceRaw c.trace c.delay) (r.effArgs c.delay) orc
+        (by omega)).1
+      have h2 := simAdvanced_trace_le_stream ρ budget c.mc c.ms (parseTraceRaw c.trace c.delay) (r.effArgs c.delay) orc
+      exact Or.inr (Nat.le_trans h2 h1)
+
+/-- **Determinism part**: two runs with the same arguments in the monitor's sense (`sameArgs`:
+    API, packets-per-second limit, seed, caps, stop setting, fractions, filters) and the same
+    oracle have the same observation. -/
+theorem C19_det_model (budget : Nat) (c : CaseIn) (r r' : RunIn) (orc : σ) (h : sameArgs r r' = true) :
+    (modelObs ρ budget c r orc).res = (modelObs ρ budget c r' orc).res := by
+  rw [modelObs_res, modelObs_res]
+  unfold modelOut
+  rw [effArgs_eq_of_sameArgs c.delay h]
+
+/-- **Projection part**: for an uncapped unfiltered reference run `u` and a run `f` with the same
+    base (API, limit, seed, iteration cap, stop setting, fractions) and the same oracle, if both
+    return a trace then `f`'s trace is the monitor's projection (`C19.project`: filter, then cut
+    at the cap) of `u`'s trace. -/
+theorem C19_proj_model (budget : Nat) (c : CaseIn) (u f : RunIn) (orc : σ)
+    (href : isReference u = true) (hsb : sameBase u f = true) (hwf : f.WF) (ut ft : List SimEvent)
+    (hu : (modelObs ρ budget c u orc).res = .ok ut) (hf : (modelObs ρ budget c f orc).res = .ok ft) :
+    ft = project f.args.onlyNetworkActivity f.args.onlyClientEvents f.args.maxTraceLength ut := by
+  rw [modelObs_res] at hu hf
+  obtain ⟨hup, hut⟩ := res_ok_inv hu
+  obtain ⟨_, hft⟩ := res_ok_inv hf
+  subst hut hft
+  obtain ⟨hau, hmtl, hoc, hon⟩ := effArgs_reference c.delay href hsb hwf
+  rw [← hmtl, ← hoc, ← hon, project_shift]
+  congr 1
+  unfold modelOut at hup ⊢
+  rw [hau] at hup ⊢
+  generalize f.effArgs c.delay = a at hup ⊢
+  have hnf := isPanic_false_no_fault hup
+  by_cases hc : a.maxTraceLength = 0
+  · rw [uncapped_eq_self a hc]
+    have := C19_project_model ρ budget c.mc c.ms (parseTraceRaw c.trace c.delay) a orc hc
+    rw [← hc] at this
+    exact this
+  · have hpos : a.maxTraceLength > 0 := by omega
+    have hnf' : ∀ f, (simAdvanced ρ budget c.mc c.ms (parseTraceRaw c.trace c.delay) a.uncapped orc).stop ≠ .fault f := by
+      rw [simAdvanced_stop_unfiltered ρ budget c.mc c.ms _ a.uncapped orc rfl]
+      exact hnf
+    rw [C19_cap_is_prefix ρ budget c.mc c.ms _ a orc hpos hnf',
+      C19_filters_are_projections ρ budget c.mc c.ms _ a.uncapped orc rfl]
+    unfold project takeCap
+    simp only [hpos, if_true]
+    rfl
+
+/-- **The C19 monitor accepts the model's own observations.**  For every case (machine lists on
+    both sides, raw trace, delay), every loop budget and every LIST of runs, each with its
+    oracle, such that runs with the same base — in particular the same seed — share the oracle
+    (the seed determines the random streams; in the driver each run carries its own hook log) and
+    runs through `sim` are recorded without the `only_client_events` flag that `sim` does not
+    have: the monitor `C19.monitor`, evaluated on the model's observations of these runs, reports
+    exactly its "panic" entries — no "bounds", no "det" (same seed and arguments but differ) and
+    no "proj" (not the projection of the unfiltered run) failure. -/
+theorem C19_monitor_accepts_model (budget : Nat) (c : CaseIn) (runs : List (RunIn × σ))
+    (hwf : ∀ p ∈ runs, p.1.WF)
+    (horc : ∀ p ∈ runs, ∀ q ∈ runs, sameBase p.1 q.1 = true → p.2 = q.2) :
+    C19.monitor c (runs.map fun p => modelObs ρ budget c p.1 p.2) =
+      panicMsgs c (runs.map fun p => modelObs ρ budget c p.1 p.2) := by
+  apply monitor_eq_panics_of
+  · intro r hr tr hres
+    obtain ⟨p, _, rfl⟩ := List.mem_map.1 hr
+    exact C19_bounds_model ρ budget c p.1 p.2 tr hres
+  · intro r hr r' hr' hsa
+    obtain ⟨p, hp, rfl⟩ := List.mem_map.1 hr
+    obtain ⟨q, hq, rfl⟩ := List.mem_map.1 hr'
+    rw [modelObs_run, modelObs_run] at hsa
+    rw [horc p hp q hq (sameBase_of_sameArgs hsa)]
+    exact C19_det_model ρ budget c p.1 q.1 q.2 hsa
+  · intro u hu f hf href hfr hsb ut ft hures hfres
+    obtain ⟨p, hp, rfl⟩ := List.mem_map.1 hu
+    obtain ⟨q, hq, rfl⟩ := List.mem_map.1 hf
+    rw [modelObs_run] at href hsb
+    rw [modelObs_run] at hsb ⊢
+    rw [horc p hp q hq hsb] at hures
+    exact C19_proj_model ρ budget c p.1 q.1 q.2 href hsb (hwf q hq) ut ft hures hfres
+
+/-- **The "panic" entries are exactly the runs whose model run ends in a fault** (or, without an
+    iteration cap, in the model's own loop budget): the observation of a run is a panic iff the
+    model run stops on a fault or on the budget, and a fault is reported with its class. -/
+theorem C19_monitor_panics_exact (budget : Nat) (c : CaseIn) (r : RunIn) (orc : σ) :
+    ((∃ cls, (modelObs ρ budget c r orc).res = .panic cls) ↔ (modelOut ρ budget c r orc).stop.isPanic = true) ∧
+    (∀ f, (modelOut ρ budget c r orc).stop = .fault f → (modelObs ρ budget c r orc).res = .panic f.cls) ∧
+    ((r.effArgs c.delay).maxSimIterations > 0 → (modelOut ρ budget c r orc).stop ≠ .loopFuel) := by
+  refine ⟨⟨?_, fun h => ?_⟩, ?_, ?_⟩
+  · rintro ⟨cls, h⟩
+    cases hp : (modelOut ρ budget c r orc).stop.isPanic with
+    | true => rfl
+    | false => rw [modelObs_res, res_ok hp] at h; cases h
+  · rw [modelObs_res]; exact res_panic h
+  · intro f hf
+    rw [modelObs_res]
+    unfold SimOut.res
+    rw [hf]
+  · intro hm
+    exact (C19_iterations_bounded ρ budget c.mc c.ms _ _ orc hm).2
+
+/-- no model run panics ⇒ the monitor is silent -/
+theorem C19_monitor_silent (budget : Nat) (c : CaseIn) (runs : List (RunIn × σ))
+    (hwf : ∀ p ∈ runs, p.1.WF)
+    (horc : ∀ p ∈ runs, ∀ q ∈ runs, sameBase p.1 q.1 = true → p.2 = q.2)
+    (hnp : ∀ p ∈ runs, (modelOut ρ budget c p.1 p.2).stop.isPanic = false) :
+    C19.monitor c (runs.map fun p => modelObs ρ budget c p.1 p.2) = [] := by
+  rw [C19_monitor_accepts_model ρ budget c runs hwf horc]
+  unfold panicMsgs
+  rw [List.filterMap_eq_nil_iff]
+  intro r hr
+  obtain ⟨p, hp, rfl⟩ := List.mem_map.1 hr
+  rw [modelObs_res, res_ok (hnp p hp)]
+
+/-- **Silent under the guard of `C19_total`**: validated machines on both sides, a trace with at
+    least one normal packet and times up to `T`, and runs that all have `max_sim_iterations = N ≥ 1`,
+    fractions in [0, 1], a packets-per-second limit that is absent or at least 1, with
+    `(N + 2) · span N T delay ≤ Duration::MAX`: no model run panics, so the monitor returns the
+    empty list on the model's observations — for every oracle assignment that gives runs with
+    the same base the same oracle. -/
+theorem C19_monitor_accepts_model_total (budget : Nat) (c : CaseIn) (runs : List (RunIn × σ)) (N T : Nat)
+    (hwf : ∀ p ∈ runs, p.1.WF)
+    (horc : ∀ p ∈ runs, ∀ q ∈ runs, sameBase p.1 q.1 = true → p.2 = q.2)
+    (hmc : MachinesOK c.mc) (hms : MachinesOK c.ms)
+    (hne : normalLines c.trace ≠ []) (hT : ∀ l ∈ normalLines c.trace, l.1 ≤ T)
+    (hN : 0 < N) (hg : (N + 2) * TB.span N T c.delay ≤ durMax)
+    (hruns : ∀ p ∈ runs, (p.1.effArgs c.delay).maxSimIterations = N ∧
+      (Validate.fracOK (p.1.effArgs c.delay).fpClient = true ∧ Validate.fracOK (p.1.effArgs c.delay).fbClient = true ∧
+       Validate.fracOK (p.1.effArgs c.delay).fpServer = true ∧ Validate.fracOK (p.1.effArgs c.delay).fbServer = true) ∧
+      ∀ x, (p.1.effArgs c.delay).network.pps = some x → 1 ≤ x) :
+    C19.monitor c (runs.map fun p => modelObs ρ budget c p.1 p.2) = [] := by
+  apply C19_monitor_silent ρ budget c runs hwf horc
+  intro p hp
+  obtain ⟨hcap, hfrac, hpps⟩ := hruns p hp
+  have hnf := C19_total_raw ρ budget c.mc c.ms c.trace N c.delay T (p.1.effArgs c.delay) p.2 hmc hms hfrac hne hT
+    (effArgs_delay p.1 c.delay) hpps (Or.inl hcap) hN hg
+  have hnl := (C19_iterations_bounded ρ budget c.mc c.ms (parseTraceRaw c.trace c.delay) (p.1.effArgs c.delay) p.2
+    (by omega)).2
+  unfold modelOut
+  cases hs : (simAdvanced ρ budget c.mc c.ms (parseTraceRaw c.trace c.delay) (p.1.effArgs c.delay) p.2).stop with
+  | fault f => exact absurd hs (hnf f)
+  | loopFuel => exact absurd hs hnl
+  | queueEmpty | maxTrace | maxIter | noNormal => rfl
+
+/-! Non-vacuity and sharpness of `C19_monitor_accepts_model` (kernel evaluation through
+    `modelObs_eq_S`, the observation restated over the iteration stream). -/
+
+/-- the padding machine on the client, eight runs as the harness makes them (main, repetition,
+    reference, three filter settings, a capped filtered run, `sim`), all with the same oracle:
+    the hypotheses hold and the monitor evaluates to the empty list -/
+example : (∀ p ∈ demoRuns, p.1.WF) ∧
+    C19.monitor demoCase (demoRuns.map fun p => modelObs exOracle 100 demoCase p.1 p.2) = [] := by
+  refine ⟨by decide, ?_⟩
+  simp only [modelObs_eq_S]
+  decide +kernel
+
+/-- **Runs with the same seed must share the oracle**: the same run twice, once with an oracle
+    that answers 1000 µs and once with one that answers 2000 µs for the sampled padding timeout —
+    the two observations differ and the monitor reports its "same seed and arguments but differ"
+    failure.  (The implementation derives its random streams from the seed; the hypothesis of the
+    theorem is that idealisation.) -/
+theorem C19_monitor_det_needs_shared_oracle :
+    (C19.monitor wideCase ([(demoRun "u" 0 40 true false false, 0x408F400000000000),
+        (demoRun "v" 0 40 true false false, 0x409F400000000000)].map
+      fun p => modelObs natOracle 100 wideCase p.1 p.2)).length = 1 := by
+  simp only [modelObs_eq_S]
+  decide +kernel
+
+/-- **`sim` has no `only_client_events` parameter**: a run through `sim` that is *recorded* with
+    that flag set (the model, like `sim`, keeps both sides) is compared by the monitor with the
+    client-only projection of the reference run, and fails.  The driver never builds such a run;
+    `RunIn.WF` states that. -/
+theorem C19_monitor_sim_flag_needed :
+    (C19.monitor demoCase0
+      ([({ demoSim 0 false with seed := some 1 }, ()),
+        ({ demoSim 0 false with seed := some 1, args := demoArgs 0 0 false true false }, ())].map
+      fun p => modelObs exOracle 100 demoCase0 p.1 p.2)).length = 1 := by
+  simp only [modelObs_eq_S]
+  decide +kernel
+
 end Mb.C19
